@@ -418,3 +418,6 @@ func specDataFlags(p *chunkPayloadData) uint8 {
 //@   ensures#payload-len len(q.userData) == len(p.userData)
 //@   ensures#payload forall i int :: 0 <= i && i < len(p.userData) ==> q.userData[i] == p.userData[i]
 //@   tags C12 C01
+
+//@ auditserial{C16,C01,C05,C06,C07,C11,C14}
+
